@@ -91,6 +91,9 @@ func (b *inproc) Restart() error {
 	return nil
 }
 
+// ChunkedHdr is not a header: it asks the backend to send the body without a Content-Length.
+const ChunkedHdr = "X-Verif-Chunked"
+
 func (b *inproc) RSSMB() int { return 0 }
 
 func (b *inproc) Close() {
@@ -107,6 +110,13 @@ func (b *inproc) Do(method, path string, hdr map[string]string, body []byte) (re
 	}
 	req.RemoteAddr = "127.0.0.1:4242"
 	for k, v := range hdr {
+		if k == ChunkedHdr {
+			// the same bytes without a Content-Length (chunked transfer encoding): what the handler sees then
+			req.Body = io.NopCloser(bytes.NewReader(body))
+			req.ContentLength = -1
+			req.TransferEncoding = []string{"chunked"}
+			continue
+		}
 		req.Header.Set(k, v)
 	}
 	rec := httptest.NewRecorder()
@@ -275,11 +285,18 @@ func (c *child) exited(wait time.Duration) bool {
 }
 
 func (c *child) Do(method, path string, hdr map[string]string, body []byte) Resp {
-	req, err := http.NewRequest(method, fmt.Sprintf("http://127.0.0.1:%d%s", c.port, path), bytes.NewReader(body))
+	var rd io.Reader = bytes.NewReader(body)
+	if _, ok := hdr[ChunkedHdr]; ok && len(body) > 0 {
+		rd = io.NopCloser(bytes.NewReader(body)) // (a body of unknown length: the client sends it chunked)
+	}
+	req, err := http.NewRequest(method, fmt.Sprintf("http://127.0.0.1:%d%s", c.port, path), rd)
 	if err != nil {
 		return Resp{Aborted: true, Msg: "request not constructible: " + err.Error()}
 	}
 	for k, v := range hdr {
+		if k == ChunkedHdr {
+			continue
+		}
 		req.Header.Set(k, v)
 	}
 	if hdr["Content-Type"] == "" {
